@@ -2984,9 +2984,14 @@ void notify_no_command () {
   p = command_giver->interactive->default_err_message;
   if (command_giver->interactive->iflags & NOTIFY_FAIL_FUNC)
     {
-      save_command_giver (command_giver);
+      object_t *giver = command_giver;
+
+      /* hold the reference on the value stack: error recovery unwinds it,
+       * which it does not do for the command giver stack */
+      push_object (giver);
       v = call_function_pointer (p.f, 0);
-      restore_command_giver ();
+      command_giver = giver;
+      pop_stack ();
       free_funp (p.f);
       if (command_giver && command_giver->interactive)
         {
